@@ -113,7 +113,14 @@ impl Expression {
         } = child_pos;
         match child {
             Self::SingleLiteral(n) => Self::SingleLiteral(-n),
-            Self::DoubleLiteral(n) => Self::DoubleLiteral(-n),
+            Self::DoubleLiteral(n) => {
+                if n == -(MIN_LONG as f64) {
+                    // -2147483648 fits in a long
+                    Self::LongLiteral(MIN_LONG)
+                } else {
+                    Self::DoubleLiteral(-n)
+                }
+            }
             Self::IntegerLiteral(n) => {
                 if n <= MIN_INTEGER {
                     Self::LongLiteral(-n as i64)
@@ -124,6 +131,9 @@ impl Expression {
             Self::LongLiteral(n) => {
                 if n <= MIN_LONG {
                     Self::DoubleLiteral(-n as f64)
+                } else if -n >= MIN_INTEGER as i64 {
+                    // -32768 fits in an integer
+                    Self::IntegerLiteral(-n as i32)
                 } else {
                     Self::LongLiteral(-n)
                 }
